@@ -95,7 +95,7 @@ func gen(t *rapid.T) Case {
 }
 
 type stats struct {
-	injected, injectedBg, errBatches, asyncErrs, images, ackedAfter, heldUses, reopenErr, reopenSurvived int
+	injected, injectedBg, errBatches, asyncErrs, images, ackedAfter, heldUses, reopenErr, reopenSurvived, reopenFellBack int
 	ntKeys                                                         []string
 	kinds                                                          map[string]int
 }
@@ -327,9 +327,11 @@ func prop(c Case, st *stats) (fail *vlib.Failure) {
 	// the open itself
 	lo, hi := rr.Rec.StateRange(vlib.Interval{Lo: 0, Hi: 1 << 61})
 	var x2 *vlib.Idx
+	reopenLoadFaultSurvived := false
 	if c.ReopenFault != nil {
 		seq := 0
 		fired := false
+		firedOp := ""
 		armed := true
 		wrap := func(ic index.Config, base func() index.Directory) index.Config {
 			d := vlib.NewRecDir(dir, nil)
@@ -343,6 +345,7 @@ func prop(c Case, st *stats) (fail *vlib.Failure) {
 				seq++
 				if seq == c.ReopenFault.Seq && !fired {
 					fired = true
+					firedOp = op
 					st.kinds["reopen:"+op+kind]++
 					return &vlib.Fault{Place: "before", Err: vlib.ErrInjected}
 				}
@@ -363,6 +366,7 @@ func prop(c Case, st *stats) (fail *vlib.Failure) {
 			x2 = nil // the fault was reported through the error: contained; open again without it
 		} else if fired {
 			st.reopenSurvived++
+			reopenLoadFaultSurvived = firedOp == "load"
 		}
 	}
 	if x2 == nil {
@@ -378,8 +382,26 @@ func prop(c Case, st *stats) (fail *vlib.Failure) {
 	if f != nil {
 		return f
 	}
-	if _, why := vlib.MatchState(m.States, o.Keys(), lo, hi); why != "" {
-		return vlib.Failf("reopen-"+why, "after the faulty run and Close the writer reopens with %v; admissible states S_%d..S_%d", o.Keys(), lo, hi)
+	rlo := lo
+	if reopenLoadFaultSurvived {
+		// a failed load of the newest snapshot (or of a segment it names) makes OpenWriter skip that
+		// snapshot and fall back to an older retained one: the mechanism property C03 names
+		// ("unloadable snapshots are skipped, older ones tried"); the property does not promise the
+		// newest state then, only a prefix state
+		rlo = 0
+	}
+	p, why := vlib.MatchState(m.States, o.Keys(), rlo, hi)
+	if why != "" {
+		return vlib.Failf("reopen-"+why, "after the faulty run and Close the writer reopens with %v; admissible states S_%d..S_%d", o.Keys(), rlo, hi)
+	}
+	if p < lo {
+		// fell back: continue from the state it opened with
+		st.reopenFellBack++
+		all := append(append([]vlib.BatchSpec{}, c.Batches...), tail)
+		m = vlib.NewModel()
+		for _, b := range all[:p] {
+			m.Apply(b)
+		}
 	}
 	// the reopened writer accepts further batches (no fault is pending any more)
 	if len(c.Tail) > 0 && lo == hi {
@@ -437,6 +459,7 @@ func TestC14Faults(t *testing.T) {
 		ev.AddExtra("faults_injected", st.injected)
 		ev.AddExtra("reopen_faults_reported_by_OpenWriter", st.reopenErr)
 		ev.AddExtra("reopen_faults_survived_by_OpenWriter", st.reopenSurvived)
+		ev.AddExtra("reopen_load_faults_answered_by_falling_back_to_an_older_snapshot", st.reopenFellBack)
 		ev.AddExtra("uses_of_readers_held_across_faults", st.heldUses)
 		ev.AddExtra("faults_on_persister_or_merger", st.injectedBg)
 		ev.AddExtra("batches_returning_the_injected_error", st.errBatches)
